@@ -435,10 +435,11 @@ func NewDecoder(n int, sep string, r io.Reader) (sts.PayloadDecoder, error) {
 		}
 	}
 	// The names are joined onto the stage and final directories: refuse any
-	// that would lead out of them
+	// that would lead out of them or that name the directory itself
 	for _, part := range binReader.meta {
-		if !filepath.IsLocal(part.Name) ||
-			(part.Renamed != "" && !filepath.IsLocal(part.Renamed)) {
+		if !filepath.IsLocal(part.Name) || filepath.Clean(part.Name) == "." ||
+			(part.Renamed != "" && (!filepath.IsLocal(part.Renamed) ||
+				filepath.Clean(part.Renamed) == ".")) {
 			return nil, fmt.Errorf(
 				"invalid file name in payload: %s (%s)", part.Name, part.Renamed)
 		}
